@@ -297,12 +297,45 @@ pub fn run_big(c: &BigCase) -> Result<usize, String> {
         };
         let mut files = Vec::new();
         let mut model: std::collections::BTreeMap<Vec<u8>, Vec<Vec<u8>>> = Default::default();
-        for s in 0..c.sources {
+        for s in 0..(if c.io == 3 { 0 } else { c.sources }) {
             let entries: Vec<Entry> = (0..c.n).filter(|i| (i + s) % 3 != 0).map(|i| (key(i), value(s, i % 4, 3 + s))).collect();
             for (k, v) in &entries {
                 model.entry(k.clone()).or_default().push(v.clone());
             }
             files.push(write_file(&FileCfg::layout(Some(1024), Some(2), c.src_levels), &entries)?);
+        }
+        if c.io == 3 {
+            // very many tiny sources: the source count crosses 2^8 (and 2^16 in the thorough tier);
+            // one key held by all of them, keys held by every 7th, and keys held by one source alone
+            // just before a shared one; value bytes are not ordered like the source indices
+            let val = |s: usize| {
+                let mut v = vec![(s * 37 % 251) as u8];
+                v.extend_from_slice(&(s as u32).to_be_bytes());
+                v
+            };
+            let mut files = Vec::with_capacity(c.sources);
+            let mut model: std::collections::BTreeMap<Vec<u8>, Vec<Vec<u8>>> = Default::default();
+            for s in 0..c.sources {
+                let mut entries: Vec<Entry> = Vec::new();
+                if s % 64 == 63 {
+                    entries.push((vec![b'a', (s / 64 % 200) as u8], val(s)));
+                }
+                entries.push((vec![b'k', (s % 7) as u8], val(s)));
+                entries.push((b"m".to_vec(), val(s)));
+                if s % 5 == 1 {
+                    entries.push((vec![b'z'], val(s)));
+                }
+                for (k, v) in &entries {
+                    model.entry(k.clone()).or_default().push(v.clone());
+                }
+                files.push(write_file(&FileCfg::plain(), &entries)?);
+            }
+            let want: Vec<Entry> = model.iter().map(|(k, vs)| (k.clone(), model_merge(c.mf, vs))).collect();
+            let want_calls: Vec<Call> = model.iter().map(|(k, vs)| (k.clone(), vs.clone())).collect();
+            let cursors: Vec<ReaderCursor<Cursor<&[u8]>>> =
+                files.iter().map(|f| Reader::new(Cursor::new(f.as_slice())).and_then(|r| r.into_cursor()).map_err(|e| e.to_string())).collect::<Result<_, _>>()?;
+            merge_and_check(cursors, c.mf, &want, &want_calls).map_err(|e| format!("{} tiny sources: {e}", c.sources))?;
+            return Ok(want_calls.iter().filter(|c| c.1.len() >= 2).count());
         }
         if c.io == 2 {
             // every source is the first file, read through handles sharing one position
@@ -379,8 +412,18 @@ pub fn run_big(c: &BigCase) -> Result<usize, String> {
     }
 }
 
-pub fn big_cases() -> Vec<BigCase> {
+pub fn big_cases(thorough: bool) -> Vec<BigCase> {
     let mut v = Vec::new();
+    // source counts around 2^8 (and 2^16): whatever is narrower than usize in the tie-break
+    let mut many = vec![255usize, 256, 257, 300, 513];
+    if thorough {
+        many.extend([65_535usize, 65_536, 65_537, 70_000]);
+    }
+    for sources in many {
+        for mf in [0u8, 1] {
+            v.push(BigCase { sources, n: 0, src_levels: 0, dst_levels: 0, mf, io: 3 });
+        }
+    }
     for sources in [2usize, 3] {
         for n in [30usize, 70] {
             for src_levels in [0u8, 2, 3] {
@@ -463,7 +506,7 @@ pub fn run(tier: Tier) -> i32 {
             }
         }
     });
-    let bigs = big_cases();
+    let bigs = big_cases(tier == Tier::Thorough);
     let a2 = par_for(bigs.len(), 1, &deadline, |i, acc: &mut Acc| {
         let c = &bigs[i];
         acc.evaluations += 1;
@@ -493,7 +536,7 @@ pub fn run(tier: Tier) -> i32 {
     let mut acc = acc;
     acc.merge(a2);
     rep.acc = acc;
-    rep.set("rule", json!("E2: all k in 0..=K source lists, each source an arbitrary subset of the 4-key universe {'', 40, 4000, 80} (empty sources included) written with one of 3 file configurations (default; 700-byte values + index_levels 2 so a source crosses blocks between entries; Snappy) — all combinations — x 2 merge functions (recording concatenation returning a lone value unchanged / Cow::Owned otherwise; Cow::Borrowed first value); sources added through add/push/extend; oracle: streamed output = union map, the recorded merge-call log = one call per key with the values in source-addition order, and write_into_stream_writer + read-back = the same content; plus larger merges (2-3 sources of 30/70 entries, and 6, 9 and 12 sources of 30 entries each holding two thirds of the keys, with 600-byte keys, source and destination index_levels up to 3 with cut index blocks; also over sources serving short/interrupted reads with a short-writing destination, and, as an observation that is noted but not judged, over sources that are handles of one file sharing a single position); distinct_nontrivial = cases where some key is held by >= 2 sources"));
+    rep.set("rule", json!("E2: all k in 0..=K source lists, each source an arbitrary subset of the 4-key universe {'', 40, 4000, 80} (empty sources included) written with one of 3 file configurations (default; 700-byte values + index_levels 2 so a source crosses blocks between entries; Snappy) — all combinations — x 2 merge functions (recording concatenation returning a lone value unchanged / Cow::Owned otherwise; Cow::Borrowed first value); sources added through add/push/extend; oracle: streamed output = union map, the recorded merge-call log = one call per key with the values in source-addition order, and write_into_stream_writer + read-back = the same content; plus larger merges (2-3 sources of 30/70 entries, and 6, 9 and 12 sources of 30 entries each holding two thirds of the keys, and 255/256/257/300/513 tiny sources (thorough: also 65535/65536/65537/70000) sharing one key among all, keys among every 7th and lone keys just before a shared one, with 600-byte keys, source and destination index_levels up to 3 with cut index blocks; also over sources serving short/interrupted reads with a short-writing destination, and, as an observation that is noted but not judged, over sources that are handles of one file sharing a single position); distinct_nontrivial = cases where some key is held by >= 2 sources"));
     rep.set("bound", json!({"max_sources": maxk, "cases": total}));
     rep.assume("the merger cannot inspect the merge function, so the recorded call log (key, ordered values, call count) determines the output for every deterministic merge function");
     rep.finish()
